@@ -54,6 +54,7 @@ InvGateBeforeInit == "GateBeforeInit" \in bad => lead
 InvDuplicateInitRejected == "DuplicateInitRejected" \notin bad
 InvPrematureInitializedRejected == "PrematureInitializedRejected" \notin bad
 InvRepeatedInitializedRejected == "RepeatedInitializedRejected" \notin bad
+InvFirstInitializedTakesEffect == "FirstInitializedTakesEffect" \notin bad
 InvPingAlways == "PingAlways" \notin bad
 InvModernServedIffMetaComplete == "ModernServedIffMetaComplete" \notin bad
 InvRemovedMethodsNotFound == "RemovedMethodsNotFound" \notin bad
@@ -74,6 +75,7 @@ RowGateBeforeInit == RowClauseOK("GateBeforeInit")
 RowDuplicateInitRejected == RowClauseOK("DuplicateInitRejected")
 RowPrematureInitializedRejected == RowClauseOK("PrematureInitializedRejected")
 RowRepeatedInitializedRejected == RowClauseOK("RepeatedInitializedRejected")
+RowFirstInitializedTakesEffect == RowClauseOK("FirstInitializedTakesEffect")
 RowPingAlways == RowClauseOK("PingAlways")
 RowModernServedIffMetaComplete == RowClauseOK("ModernServedIffMetaComplete")
 RowRemovedMethodsNotFound == RowClauseOK("RemovedMethodsNotFound")
